@@ -146,12 +146,12 @@ def accumulate_indices_means_vars(data, means):
     # they get accumulated in the next function
     means_sum = np.zeros((n_clusters, n_features), like=data)
     variances_sum = np.zeros((n_clusters, n_features), like=data)
+    # Sums of deviations from the assigned centroid: the variance does not
+    # depend on this shift, and it avoids cancellation for data far from 0
     for i in range(n_clusters):
-        means_sum[i] = np.sum(data[closest_centroid_indices == i], axis=0)
-    for i in range(n_clusters):
-        variances_sum[i] = np.sum(
-            data[closest_centroid_indices == i] ** 2, axis=0
-        )
+        deviations = data[closest_centroid_indices == i] - means[i]
+        means_sum[i] = np.sum(deviations, axis=0)
+        variances_sum[i] = np.sum(deviations**2, axis=0)
     return closest_centroid_indices, means_sum, variances_sum
 
 
